@@ -174,3 +174,25 @@ class CallBudget:
     def __exit__(self, *exc):
         self._p.remove()
         return False
+
+
+class AnomalySolverBudget:
+    """Bound the work of Form.M2E (Newton loops written as bare `while abs(E1 - E) >= tol`) by counting the calls of the
+    module-global `sin` / `sinh` it looks up in beyond.orbits.forms: a non-terminating iteration (cycle, garbage
+    elements after a botched update) becomes BudgetExceeded instead of a hang."""
+
+    def __init__(self, budget=20000):
+        self.budget = budget
+
+    def __enter__(self):
+        from beyond.orbits import forms
+
+        self._b = [CallBudget(forms, "sin", self.budget), CallBudget(forms, "sinh", self.budget)]
+        for b in self._b:
+            b.__enter__()
+        return self
+
+    def __exit__(self, *exc):
+        for b in reversed(self._b):
+            b.__exit__(*exc)
+        return False
